@@ -200,6 +200,17 @@ def run_fatal(facts, cg):
                     findings.append({'rule': 'R-ERR', 'key': key, 'function': b.q,
                                      'what': 'the error of %s at %s (data that is not what the archive says) can end in a success of this function: a chunk '
                                              'that failed verification is replaced or skipped instead of failing the clone' % (callee_q(t), t['loc'])})
+    # the exit status: main hands the Result of the command to the runtime (which prints it and exits 1); it does not compute a
+    # status of its own (an I/O error synthesised by tokio has no OS error number - `raw_os_error().unwrap_or_default()` is 0)
+    for b in facts.bodies.values():
+        if b.q == 'bita::main':
+            is_res = b.lty(0).get('adt') == RESULT
+            exits = [callee_q(t) for _, t in b.calls() if 'q' in t['callee'] and callee_q(t) in ('std::process::exit', 'std::process::abort')]
+            instances.append({'rule': 'R-ERR(exit-status)', 'function': b.q, 'returns_result': is_res, 'explicit_exits': exits})
+            if not is_res or exits:
+                findings.append({'rule': 'R-ERR', 'key': 'R-ERR|bita::main|exit-status', 'function': b.q,
+                                 'what': 'main %s: whether a failed command ends with a non-zero status is decided by hand-written code, not by returning the error'
+                                         % ('does not return a Result' if not is_res else 'calls ' + ', '.join(exits))})
     if n < 2:
         findings.append({'rule': 'R-ERR', 'key': 'R-ERR|-|floor-fatal', 'function': '-', 'what': 'expected the decompress / verify calls of the clone command, found %d (cannot decide)' % n})
     return instances, findings
